@@ -27,6 +27,7 @@ PREF = {"": 0, "Y": 24, "Z": 21, "E": 18, "P": 15, "T": 12, "G": 9, "M": 6, "k":
 UNITS = ["m", "g", "s", "A", "K", "mol", "cd", "Hz", "N", "Pa", "J", "W", "C", "V", "F", "S", "Wb", "T", "H",
          "lm", "lx", "Bq", "Gy", "Sv", "kat", "l", "L", "Ohm", "%", "dB", "rad"]
 POW = ["", "1", "2", "3", "-1", "-2", "-3", "+2"]
+LAYER_B = ['C09']      # monitors of nixmon/passive/plugin.py run over the repository's own tests in the thorough tier
 NSHARDS = 16
 
 
